@@ -57,16 +57,35 @@ impl Dimensionality {
 
     pub fn recip(mut self) -> Dimensionality {
         for (_, power) in self.dims.iter_mut() {
-            *power *= -1;
+            *power = power.saturating_neg();
         }
         self
     }
 
+    /// Exponents that do not fit saturate, see `checked_pow`.
     pub fn pow(mut self, exp: i64) -> Dimensionality {
         for (_, power) in self.dims.iter_mut() {
-            *power *= exp;
+            *power = power.saturating_mul(exp);
         }
         self
+    }
+
+    /// Like `pow`, but `None` if an exponent of the result does not fit.
+    pub fn checked_pow(mut self, exp: i64) -> Option<Dimensionality> {
+        for (_, power) in self.dims.iter_mut() {
+            *power = power.checked_mul(exp)?;
+        }
+        Some(self)
+    }
+
+    /// Like `*`, but `None` if an exponent of the result does not fit.
+    pub fn checked_mul(&self, rhs: &Dimensionality) -> Option<Dimensionality> {
+        for (unit, power) in &self.dims {
+            if let Some(other) = rhs.dims.get(unit) {
+                power.checked_add(*other)?;
+            }
+        }
+        Some(self * rhs)
     }
 }
 
@@ -74,9 +93,11 @@ impl<'a> ops::Mul for &'a Dimensionality {
     type Output = Dimensionality;
 
     fn mul(self, rhs: Self) -> Self::Output {
+        // Exponents that do not fit saturate, see `checked_mul`.
         let dims = btree_merge(&self.dims, &rhs.dims, |a, b| {
-            if a + b != 0 {
-                Some(a + b)
+            let sum = a.saturating_add(*b);
+            if sum != 0 {
+                Some(sum)
             } else {
                 None
             }
